@@ -341,9 +341,22 @@ def precedence(sx, B):
         sx.cover("template defined twice")
     gen_coords_ = {"a1": np.array([1.0, 1.0, 1.0]), "a2": np.array([1.5, 1.0, 1.0]), "b1": np.array([2.0, 2.0, 2.0]),
                    "b2": np.array([2.4, 2.0, 2.0]), "b3": np.array([2.4, 2.5, 2.0])}
-    with patched(gt, optimize_geometry=lambda block, coords, inter: (True, coords),
-                 _expand_inital_coords=lambda block: {n: gen_coords_[n].copy() for n in block.nodes}):
+    # every call of the start-geometry generator gives another (scaled) geometry, as the random layout of the real one does: a
+    # residue type must be generated once and that template be shared by all molecules
+    calls = []
+
+    def expand(block):
+        k = len(calls)
+        names_ = sorted(block.nodes[n]["atomname"] if "atomname" in block.nodes[n] else n for n in block.nodes)
+        calls.append(tuple(names_))
+        return {n: gen_coords_[n] * (1.0 + 0.25 * k) for n in block.nodes}
+    with patched(gt, optimize_geometry=lambda block, coords, inter: (True, coords), _expand_inital_coords=expand):
         gt.GenerateTemplates(topology=top, max_opt=1, skip_filter=False).run_system(top)
+    sx.claim(len(calls) == len(set(calls)), "each residue type is generated at most once for the whole system",
+             lambda: "start geometries were generated for %r" % (calls,))
+    scale_of = {}
+    for k, c in enumerate(calls):
+        scale_of.setdefault(c, 1.0 + 0.25 * k)
     for mi, meta in enumerate(top.molecules):
         for n in meta.nodes:
             nd = meta.nodes[n]
@@ -355,7 +368,7 @@ def precedence(sx, B):
                 continue
             cog = sum(np.array(v, dtype=float) for v in tmpl.values()) / len(tmpl)
             sx.claim(bool(np.allclose(cog, 0, atol=1e-9)), "templates have zero centre of geometry", what)
-            src = user_pos[r] if give_t[r] else {k: tuple(gen_coords_[k]) for k in user_pos[r]}
+            src = user_pos[r] if give_t[r] else {k: tuple(gen_coords_[k] * scale_of.get(tuple(sorted(user_pos[r])), 1.0)) for k in user_pos[r]}
             c0 = sum(np.array(v, dtype=float) for v in src.values()) / len(src)
             if not give_t[r]:
                 sx.cover("generated")
@@ -365,3 +378,28 @@ def precedence(sx, B):
             sx.claim(vol is not None and vol > 0, "every size is positive", what)
             if give_v[r]:
                 sx.claim(abs(vol - {"RA": 0.77, "RB": 0.91}[r]) < 1e-12, "a supplied size is used unchanged", what)
+
+
+@condition("C15.size_coincident",
+           anchors=["polyply.src.generate_templates:compute_volume"],
+           rejects=(), selector_only=True, must_cover=["all atoms on one point"],
+           outside=["more than three coincident atoms"],
+           bounds={"quick": dict(), "thorough": dict()})
+def size_coincident(sx, B):
+    """'every size is positive': real compute_volume on residues whose atoms all sit on one point (a bead with virtual sites built on
+    it, stacked beads) with solver-chosen radii in every order: the size is the largest of the radii - positive whenever one atom
+    has a positive radius - and does not depend on the order of the atoms."""
+    from vermouth.molecule import Block
+    n = sx.sel("natoms", [1, 2, 3])
+    radii = [sx.sel("radius%d" % i, [0.0, 0.3, 0.62]) for i in range(n)]
+    block = Block()
+    nb = {}
+    coords = {}
+    for i, r in enumerate(radii):
+        block.add_node(i, atomname="x%d" % i, atype="T%d" % i, resname="R")
+        nb[frozenset(["T%d" % i, "T%d" % i])] = {"nb1": r, "nb2": 1.0}
+        coords[i] = np.array([0.5, 0.5, 0.5])      # (a point whose centre of geometry is exact in floating point)
+    sx.cover("all atoms on one point")
+    size = gt.compute_volume(block, coords, nb)
+    sx.claim(abs(size - max(radii)) < 1e-12, "the size of a residue whose atoms coincide is the largest atom radius",
+             lambda: "radii %r: size %r" % (radii, size))
